@@ -256,6 +256,26 @@ func structured() []*big.Int {
 			do(new(big.Int).SetBytes(bytes.Repeat([]byte{b}, n)))
 		}
 	}
+	// carry-propagation chains: a digit that generates a recentring carry (>= half) at position i followed by a
+	// run of k digits equal to half-1 (which the incoming carry turns into carry generators), for every radix in
+	// use, every start and every run length, on a zero background and with a non-zero digit on top
+	for _, w := range []uint{4, 5, 6, 7, 8} {
+		half := int64(1) << (w - 1)
+		nd := int(255 / w)
+		for i := 0; i < nd; i++ {
+			for k := 1; i+k < nd && k <= 64; k++ {
+				if w != 4 && (i%3 != 0 || k%2 != 0) {
+					continue // full grid for radix 16, a sub-grid for the wider radices
+				}
+				v := new(big.Int).Lsh(big.NewInt(half), uint(i)*w)
+				for j := 1; j <= k; j++ {
+					v.Or(v, new(big.Int).Lsh(big.NewInt(half-1), uint(i+j)*w))
+				}
+				do(v)
+				do(new(big.Int).Or(v, new(big.Int).Lsh(big.NewInt(1), uint(i+k+1)*w)))
+			}
+		}
+	}
 	out = append(out, new(big.Int).Sub(ref.L, big.NewInt(1)), new(big.Int).Set(ref.L), new(big.Int).Set(mask255))
 	out = append(out, gen.ScalarCatalogue()...)
 	return out
